@@ -128,7 +128,9 @@ def build(spec, scratch=None):
 
         p = Path(scratch) / spec[1]
         p.parent.mkdir(parents=True, exist_ok=True)
-        p.write_bytes(bytes.fromhex(spec[2]))
+        content = bytes.fromhex(spec[2])
+        if not p.exists() or p.read_bytes() != content:  # several sessions may share the file
+            p.write_bytes(content)
         return File(p)
     raise ValueError(spec)
 
